@@ -65,11 +65,17 @@ type Env struct {
 
 // NewEnv builds honest vouchers for a key kind and encoding.
 func NewEnv(kind world.KeyKind, enc protocol.KeyEncoding, maxLen int) (*Env, error) {
+	return NewEnvWith(world.Options{Kind: kind, Enc: enc}, maxLen)
+}
+
+// NewEnvWith is NewEnv with explicit world options.
+func NewEnvWith(opt world.Options, maxLen int) (*Env, error) {
 	ctx := context.Background()
-	w := world.New(world.Options{Kind: kind, Enc: enc})
+	kind, enc := opt.Kind, opt.Enc
+	w := world.New(opt)
 	e := &Env{Name: fmt.Sprintf("%s/enc%d", kind, enc), W: w, Parties: map[string]*world.Party{"mfg": w.Mfg}}
 	for _, n := range []string{"o1", "o2", "o3", "stranger"} {
-		e.Parties[n] = world.NewParty(n, kind)
+		e.Parties[n] = w.Keys.NewParty(n, kind)
 	}
 	mk := func() (*world.Device, []*vforge.V, error) {
 		d := w.NewDevice("")
